@@ -141,11 +141,17 @@ def handle : List String → Option String
   | "rbs" :: rest => do
     let xs ← parseNats rest
     match xs with
-    | [pH, pW, pD, cH, cW] =>
-      match rollingBufferShape pH pW pD cH cW with
+    | [pH, pW, pD, cH, cW, over] =>
+      match rollingBufferShape pH pW pD cH cW over with
       | .ok (h, w, d) => some s!"{h} {w} {d}"
       | .error e => some e.str
     | _ => none
+  | ["overread", skT, skB, stride, kdil] => do
+    let st ← parseInt? stride; let kd ← parseInt? kdil
+    let skirt ← if skT == "-" then some none else do
+      let a ← parseInt? skT; let b ← parseInt? skB
+      some (some (a, b))
+    some (toString (ifmBoxOverread skirt st kd))
   | "arb" :: rest => do
     let xs ← parseNats rest
     match xs with
